@@ -597,8 +597,11 @@ impl PtraceDumper {
         }
 
         // Zero memory that is below the current stack pointer.
-        let offset =
-            (sp_offset + std::mem::size_of::<usize>() - 1) & !(std::mem::size_of::<usize>() - 1);
+        // The stack pointer can lie beyond the end of a shortened copy, in which case
+        // everything in the copy is below it.
+        let offset = ((sp_offset + std::mem::size_of::<usize>() - 1)
+            & !(std::mem::size_of::<usize>() - 1))
+            .min(stack_copy.len());
         for x in &mut stack_copy[0..offset] {
             *x = 0;
         }
